@@ -1170,6 +1170,10 @@ def _addr_segwit_path(kind, network):
     h = SBytes.sym("h", n)
     wit = lambda env: {"kind": "spk", "template": kind, "network": network, "hash": bytes_env(env, "h", n).hex()}  # noqa
     spk = _mk_spk(sc, kind, h)
+    # history: the same object is first asked for its address on another network
+    other = "testnet" if network == "mainnet" else "mainnet"
+    first = spk.address(other)
+    check(first[:len(HRP[other]) + 1] == HRP[other] + "1", "address(other network) does not start with that network's prefix", witness=wit)
     addr = spk.address(network)
     hrp = HRP[network]
     v = 1 if kind == "p2tr" else 0
@@ -1207,7 +1211,10 @@ def _addr_b58_layout_path(kind, network):
     orig = sc.encode_base58_checksum
     sc.encode_base58_checksum = lambda raw: (seen.append(raw), B58Carrier(raw))[1]
     try:
-        t = _mk_spk(sc, kind, h).address(network)
+        obj = _mk_spk(sc, kind, h)
+        obj.address("testnet" if network == "mainnet" else "mainnet")   # history: another network first, same object
+        del seen[:]
+        t = obj.address(network)
     finally:
         sc.encode_base58_checksum = orig
     want = bytes([B58_VERSION[(kind, network == "mainnet")]]) + h
@@ -1279,6 +1286,7 @@ def replay_spk(w):
     cls = {"p2pkh": script.P2PKHScriptPubKey, "p2sh": script.P2SHScriptPubKey, "p2wpkh": script.P2WPKHScriptPubKey,
            "p2wsh": script.P2WSHScriptPubKey, "p2tr": script.P2TRScriptPubKey}[kind]
     spk = cls(h)
+    spk.address("testnet" if net == "mainnet" else "mainnet")   # the same object was first asked about another network
     a = spk.address(net)
     if kind in ("p2pkh", "p2sh"):
         want = spec_b58encode_check(bytes([B58_VERSION[(kind, net == "mainnet")]]) + h)
